@@ -64,6 +64,30 @@ ORACLE_ONLY = {
  "C15": "normal-form checker on every result of parse/&/|/only/exclude",
  "C17": "parser acceptance vs packaging's SpecifierSet per ||-alternative; only InvalidSpecifier may be raised; from_specifierset never raises",
 }
+
+TB_MARKER = ("trusted: Coq kernel (Props/C02.v closed under the global context); Model/Marker.v is hand-written and tied to dep_logic.markers by the S-mark stream (structural comparison of parse/&/|/only/exclude results, "
+             "evaluate on environments); the merge of two version-like atoms is a parameter of the model whose soundness hypothesis (vmerge_sound) is checked on every row the implementation produced (S-vmerge-rows) and rests on C11/C04; "
+             "set iteration order and fuel are universally quantified")
+TB_PARSE = ("trusted: Coq kernel (closed under the global context); Model/SpecParse.v is hand-written over tokenised clauses and tied to the code by the S-parse stream; the GENERATED algebra is tied by S-gen; the text layer "
+            "(packaging's tokeniser, str(Version)) and packaging's Specifier.contains on final releases (clause_sem) are modelled/observed, not verified; === is outside the model")
+P.update({
+ "C02": ("proof", "Theorems C02_and / C02_or (the result of & / | evaluates as the conjunction / disjunction of the operands in EVERY environment), C02_empty_any, C02_parse (_build_markers preserves the Boolean structure of the parsed text) and "
+         "C02_normaliser (MultiMarker.of, MarkerUnion.of, union_simplify, intersect_simplify, cnf, dnf, union are all meaning preserving) over Model/Marker.v, for every fuel, every set iteration order and every sound merge of version-like atoms. "
+         "Quick: rebuild the cone, S-mark correspondence (~700 cases evaluated inside Coq), S-vmerge-rows (the merge hypothesis on the rows the code produced), direct truth-table oracle on ~1000 operand pairs.",
+         TB_MARKER, "machine-checked proof in Coq over a hand model + correspondence + hypothesis check on the implementation", "5"),
+ "C04": ("proof", "C04_clause (every operator's translation into ranges has exactly packaging's members among final releases: comparison, ==V, !=V, ==X.*, !=X.*, ~=), C04_leaf and C04_closure (for EVERY &,|,~ expression over parsed texts, "
+         "contains() of the result - which the code computes by packaging on the RENDERED text - equals the Boolean combination of packaging's answers on the leaves), using C01 exactness of the generated algebra, provenance of `simplified` "
+         "(SpecProv) and soundness of the rendering heuristics. Exclusion tilde_safe = known finding tilde-max-post, with C04_tilde_refuted as machine-checked witness. Quick: cone + S-parse (~4400 cases) + S-gen + packaging oracle on ~1200 expressions.",
+         TB_PARSE, "machine-checked proof in Coq over a hand model on top of the regenerated algebra + correspondence", "5"),
+ "C06": ("proof", "C06_reachable: for EVERY value reachable from the parser through &,|,~ (any bound shapes: epochs, release lengths, trailing zeros, pre/post/dev) str() succeeds and parse(str(s)) == s with the generated ==; C06_tilde / C06_nestar: whenever the "
+         "~=X.Y / !=X.* shortening is chosen the bounds are exactly the ones the clause denotes. Exclusion tilde_safe = known finding tilde-max-post (C06_tilde_refuted). Quick: cone + S-parse (str() of reachable values tokenised and compared) + round-trip oracle.",
+         TB_PARSE, "machine-checked proof in Coq over a hand model on top of the regenerated algebra + correspondence", "5"),
+ "C17": ("proof", "C17_clause / C17_set / C17_parse: once packaging has tokenised a text, _from_pkg_specifier, from_specifierset and parse_version_specifier return a canonical value for EVERY clause list (any epoch, any number of release segments, pre/post/dev "
+         "operands of ~= and wildcards) - no exception of the library's own. Which strings are accepted, and the translation of packaging's InvalidSpecifier, are the text layer: decided by the direct oracle against SpecifierSet (1500/30000 texts incl. near misses).",
+         TB_PARSE, "machine-checked proof in Coq over a hand model + correspondence; acceptance of raw strings by differential oracle against packaging", "5"),
+})
+for k in ("C02", "C04", "C06", "C17"):
+    ORACLE_ONLY.pop(k, None)
 checks = []
 for pid in sorted(set(P) | set(ORACLE_ONLY)):
     if pid in P:
